@@ -140,6 +140,9 @@ fn update_case(rt: &tokio::runtime::Runtime, dir: &Path, case: &Value, n: usize)
 			}
 		}
 	}
+	if cols.is_empty() {
+		cols.push("k".to_string()); // (an empty table still has its header line)
+	}
 	let mut csv = format!("rid,{}\n", cols.join(","));
 	for r in rows {
 		let mut line = vec![csv_field(r["id"].as_str().unwrap())];
